@@ -224,8 +224,19 @@ def step (_ : Unit) (l : Line) : Unit × String :=
     | _, _ => bad
   | "year_diff" =>
     match l.int? "a", l.int? "b" with
-    | some a, some b => let r := toString (a - b); out r r
+    | some a, some b =>
+      let (ya, yb) := (Gen.mkYear a, Gen.mkYear b)
+      out (guardUB (Gen.year_diff_ub ya yb) (toString (Gen.year_diff ya yb))) (toString (a - b))
     | _, _ => bad
+  | "ym_diff" =>
+    -- year_month - year_month ([time.cal.ym.nonmembers]); the second value checks ym2 + (ym1 - ym2) == ym1
+    match l.int? "y1", l.int? "m1", l.int? "y2", l.int? "m2" with
+    | some y1, some m1, some y2, some m2 =>
+      let (a, b, c, d) := (Gen.mkYear y1, Gen.mkMonth m1, Gen.mkYear y2, Gen.mkMonth m2)
+      let k := Gen.year_month_diff a b c d
+      out (guardUB (Gen.year_month_diff_ub a b c d) s!"{k},{t2 (Gen.year_month_plus c d k)}")
+        s!"{Spec.yearMonthDiff y1 m1 y2 m2},{y1},{m1}"
+    | _, _, _, _ => bad
   | "incdec" =>
     -- ++x, x++ (old*K + new), --x, x-- (old*K + new) [, iso_encoding]: wrap 12 -> 1 / 1 -> 12 for months, 6 -> 0 / 0 -> 6 for
     -- weekdays (through the generated month_plus / weekday_plus / weekday_minus), plain ±1 for day and year
@@ -241,7 +252,7 @@ def step (_ : Unit) (l : Line) : Unit × String :=
       let up := Gen.weekday_plus v 1
       let dn := Gen.weekday_minus v 1
       let iso : Int := if v == 0 then 7 else v
-      let m := s!"{up},{v * 1000 + up},{dn},{v * 1000 + dn},{iso}"
+      let m := s!"{up},{v * 1000 + up},{dn},{v * 1000 + dn},{Gen.weekday_iso_encoding v}"
       let su := Spec.weekdayPlus v 1
       let sd := Spec.weekdayPlus v (-1)
       out m s!"{su},{v * 1000 + su},{sd},{v * 1000 + sd},{iso}"
@@ -263,7 +274,12 @@ def step (_ : Unit) (l : Line) : Unit × String :=
       -- month_day: day within the longest possible length of that month (February: 29)
       let mdok := mok && decide (1 ≤ d) && decide (d ≤ (if m == 2 then 29 else (Spec.monthLength 2001 m.toNat : Int)))
       let r := String.join [b2s mdok, b2s (wok && iok), b2s (mok && wok && iok), b2s (mok && wok), b2s (yok && mok), b2s (yok && mok), b2s mok]
-      out r r
+      -- year_month::ok, year_month_day_last::ok, month_day_last::ok: the generated functions (on year{y}, month{m})
+      let (yy, mm) := (Gen.mkYear y, Gen.mkMonth m)
+      let g := String.join [b2s mdok, b2s (wok && iok), b2s (mok && wok && iok), b2s (mok && wok),
+        guardUB (Gen.year_month_ok_ub yy mm) (b2s (Gen.year_month_ok yy mm)), guardUB (Gen.ymdl_ok_ub yy mm) (b2s (Gen.ymdl_ok yy mm)),
+        guardUB (Gen.month_day_last_ok_ub mm) (b2s (Gen.month_day_last_ok mm))]
+      out g r
     | _, _, _, _, _ => bad
   -- weekday-indexed dates: no generated model yet; the implementation is compared with the spec (and the spec with std)
   | "ymw" =>
